@@ -3,7 +3,6 @@
 From Coq Require Import QArith List Bool ZArith.
 From Cobra.LP Require Import Defs Cert Fba.
 From Cobra.FVA Require Import Model.
-From Cobra.Gen Require Import FvaTables.
 Import ListNotations.
 Open Scope Q_scope.
 
@@ -15,7 +14,10 @@ Record c05case := mkC05 {
   k_m : fbamodel;
   k_fba : vec * vec;                   (* certificate (x, y) of the FBA optimum on net_lp *)
   k_frac : Q;                          (* fraction_of_optimum *)
-  k_pfba : option (Q * pcert);         (* pfba_factor and the certificate for the pFBA step problem *)
+  k_pfba : option (Q * pfba_arg * pcert);
+                                       (* pfba_factor, the fraction add_pfba is called with (read from the source by the
+                                          harness; the translated table Gen/FvaTables.v is checked in Properties/C05.v),
+                                          certificate for the pFBA step problem *)
   k_ids : list nat;                    (* requested reactions (positions), request order *)
   k_certs : list (rcert * rcert);      (* per requested reaction: certificate of the min and of the max step problem *)
   k_impl : obs;                        (* what flux_variability_analysis returned *)
@@ -29,8 +31,8 @@ Record c05case := mkC05 {
 Definition tol : Q := 1 # 1000000.
 
 (* the bound fix_objective_as_constraint uses inside add_pfba, per the regenerated table *)
-Definition pfba_fixed_bound (frac opt bound : Q) : Q :=
-  match pfba_fraction_arg with PfbaConst f => f * opt | PfbaSameFraction => frac * opt end.
+Definition pfba_fixed_bound (a : pfba_arg) (frac opt : Q) : Q :=
+  match a with PfbaConst f => f * opt | PfbaSameFraction => frac * opt end.
 
 Definition step_value (p : lp) (mx : bool) (c : rcert) : option (option Q) :=   (* None = certificate rejected *)
   match c with
@@ -80,11 +82,19 @@ Fixpoint inside (ll im : list (Q * Q)) : bool :=
   | _, _ => false
   end.
 
-Fixpoint ll_exact (ll : list (Q * Q)) (ex : list (option (Q * Q))) : bool :=
+(* against the exact loop-free range (lo, hi): a reported loopless range may be WIDER (it contains values
+   only attained by distributions with an internal cycle: code 7) or NARROWER (it misses loop-free
+   distributions: code 12)                                                                        *)
+Fixpoint ll_wider (ll : list (Q * Q)) (ex : list (option (Q * Q))) : bool :=
   match ll, ex with
-  | [], [] => true
   | (a, b) :: ll', e :: ex' =>
-      match e with Some (lo, hi) => close tol a lo && close tol b hi | None => true end && ll_exact ll' ex'
+      match e with Some (lo, hi) => negb (le_tol lo a) || negb (le_tol b hi) | None => false end || ll_wider ll' ex'
+  | _, _ => false
+  end.
+Fixpoint ll_narrower (ll : list (Q * Q)) (ex : list (option (Q * Q))) : bool :=
+  match ll, ex with
+  | (a, b) :: ll', e :: ex' =>
+      match e with Some (lo, hi) => negb (le_tol a lo) || negb (le_tol hi b) | None => false end || ll_narrower ll' ex'
   | _, _ => false
   end.
 
@@ -99,11 +109,11 @@ Definition checks (c : c05case) : list nat :=
   let pf : option (option (option Q)) :=     (* None: rejected; Some None: infeasible; Some (Some cap) *)
     match k_pfba c with
     | None => Some (Some None)
-    | Some (factor, POpt xp yp) =>
-        let p := pfba_lp m bound (pfba_fixed_bound (k_frac c) opt bound) in
+    | Some (factor, a, POpt xp yp) =>
+        let p := pfba_lp m bound (pfba_fixed_bound a (k_frac c) opt) in
         if check_opt p xp yp then Some (Some (Some (factor * - value p xp))) else None
-    | Some (_, PInf yp) =>
-        if check_infeasible (pfba_lp m bound (pfba_fixed_bound (k_frac c) opt bound)) yp then Some None else None
+    | Some (_, a, PInf yp) =>
+        if check_infeasible (pfba_lp m bound (pfba_fixed_bound a (k_frac c) opt)) yp then Some None else None
     end in
   match pf with
   | None => [9%nat]
@@ -127,7 +137,9 @@ Definition checks (c : c05case) : list nat :=
               (match k_loopless c with
                | None => []
                | Some (OTable ll, exl) =>
-                   (if inside ll im then [] else [6%nat]) ++ (if ll_exact ll exl then [] else [7%nat])
+                   (if inside ll im then [] else [6%nat]) ++
+                   (if Nat.eqb (length ll) (length exl) then [] else [11%nat]) ++
+                   (if ll_wider ll exl then [7%nat] else []) ++ (if ll_narrower ll exl then [12%nat] else [])
                | Some (_, _) => [11%nat]
                end)
           | _, _ => [1%nat]
